@@ -80,7 +80,7 @@ type contractDB struct {
 var clauseKeywords = map[string]bool{
 	"props": true, "theory": true, "requires": true, "ensures": true, "exit": true, "modifies": true,
 	"ghost": true, "loop": true, "at": true, "implements": true, "allow": true, "fresh": true,
-	"assume": true, "prove": true, "note": true,
+	"assume": true, "prove": true, "note": true, "var": true,
 }
 
 var blockRe = regexp.MustCompile(`(?s)/\*@(.*?)@\*/`)
@@ -280,6 +280,16 @@ func (b *block) addClause(kw, text string, line int) error {
 			return err
 		}
 		b.clauses = append(b.clauses, c)
+	case "var":
+		j := strings.Index(text, ":")
+		if j < 0 {
+			return fmt.Errorf("var needs ': Sort'")
+		}
+		name := strings.TrimSpace(text[:j])
+		if smtReserved[name] {
+			return fmt.Errorf("var name %q is a reserved SMT-LIB word", name)
+		}
+		b.clauses = append(b.clauses, &clause{kind: "var", gname: name, gsort: strings.TrimSpace(text[j+1:]), line: line})
 	case "ghost":
 		// name : Sort := F
 		i := strings.Index(text, ":=")
